@@ -119,7 +119,8 @@ def execute(scn, sb):
     if scn.get("edit_after") and job.kind == "file":
         # the header is edited between the crash and the follow-up builds: whatever the crash left behind
         # was produced from the old header and must not pass for a translation of the new one
-        job = sc.SimpleJob(job.kind, job.mul + 3, job.add, job.fname)
+        # ("revert": back to the contents that were built and cached before the crashing build's edit)
+        job = sc.SimpleJob(job.kind, job.mul + (1 if scn["edit_after"] == "revert" and scn["pre"] == "edited" else 3), job.add, job.fname)
         for name, text in job.files().items():
             sb.write_proj(name, text)
         spec = {"mode": scn["mode"], "jobs": [job.spec()]}
@@ -141,7 +142,7 @@ def execute(scn, sb):
         "log_hash": ps.log_hash(full),
         "steps": steps, "sim_ns": steps * 10 ** 6,
         "nontrivial": killed_any,
-        "distinct_key": "%s/%s/%s%s/%s" % (scn["mode"], scn["job"]["kind"], scn["pre"], "+edit" if scn.get("edit_after") else "",
+        "distinct_key": "%s/%s/%s%s/%s" % (scn["mode"], scn["job"]["kind"], scn["pre"], ("+" + str(scn["edit_after"])) if scn.get("edit_after") else "",
                                            ";".join("%s@%d" % (f["kind"], f["step"]) for fl in crashers for f in fl)),
         "faults": faults_fired,
         "probes": {"kill_in_write_window": 1 if any(" 1 " in l and ("KILLED" in l or "TORN" in l) for l in logs[0]) else 0,
@@ -219,6 +220,8 @@ def main(tier):
                     l.append(dict(s, faults=[f]))
                     if s["job"]["kind"] == "file" and kind != "torn":
                         l.append(dict(s, faults=[f], edit_after=True))
+                        if s["pre"] == "edited" and kind == "killafter":
+                            l.append(dict(s, faults=[f], edit_after="revert"))
             lists.append(l)
         i = 0
         while any(lists):
@@ -240,7 +243,7 @@ def main(tier):
                 f["permille"] = r.choice([0, 1, 250, 500, 900, 999])
             scn = dict(s, faults=[f])
             if s["job"]["kind"] == "file" and r.random() < 0.35:
-                scn["edit_after"] = True
+                scn["edit_after"] = "revert" if (s["pre"] == "edited" and r.random() < 0.5) else True
             if r.random() < 0.15:
                 scn["second_crash"] = [{"step": r.randrange(len(pts)), "kind": r.choice(["killbefore", "killafter"])}]
             yield scn
